@@ -171,7 +171,7 @@ def encode(x):
         return ['n', 'fraction', int(x)]
     if isinstance(x, type):
         i = next(i for i, c in enumerate(w.classes) if c is x)
-        return ['c', i, issubclass(x, Exception) and x is not Exception, issubclass(x, Warning) and x is not Warning]
+        return ['c', i, issubclass(x, Exception), issubclass(x, Warning)]
     if isinstance(x, str):
         return ['k', 'str', [_item(c) for c in x]]
     if isinstance(x, tuple):
